@@ -40,6 +40,9 @@ def run(chk):
     name, hyps, goal = lem[0]
     m, v, m1 = z3.Ints("m v m1")
     chk.prove("canary:c05:key-estimate==old+v (no ceiling)", hyps + [z3.Int("depth") == 1, z3.Int("width") == 1], m1 == m + v, expect="refuted")
+    from . import _glue, _oracle
+
+    _glue.glue_part(chk, ["CountMinLinear", "CountMinLog16", "CountMinLog8"], {"add", "query"}, lambda: _oracle.c01_history(chk, 200))
     _cm.crosscheck_linear(chk)
     n = 25 if chk.tier == "quick" else 500
     cases, bad = _cm.runtime_search(chk, LINEAR, n)
